@@ -1461,6 +1461,58 @@ func genLsOps(r *Rand, objIdx int, c *Case, nt int, perTask int) {
 	}
 }
 
+
+// ---------------------------------------------------------------------------------------
+// C20, whole-broker variant: the E1 scenarios of other properties (routing, QoS exchanges with
+// retransmission and expiry sweeps, session life cycles, takeovers over 1-3 nodes with gossip
+// merges) executed on the statement-instrumented build under seeded preemption with the race
+// detector on; neighbouring client requests are handed over in the same driver turn. The
+// oracles are the race detector (both accesses inside wasp), panics and hangs.
+
+func genC20E1(r *Rand, tier, profile string) *Case {
+	var c *Case
+	base := r.Intn(5)
+	switch base {
+	case 0:
+		c = genC01(r, tier, "")
+	case 1:
+		c = genC03(r, tier, "")
+	case 2:
+		c = genC11(r, tier, "")
+	case 3:
+		c = genC12(r, tier, "")
+	default:
+		c = genC07(r, tier, "")
+	}
+	c.Profile = "e1mix"
+	if c.Knobs == nil {
+		c.Knobs = map[string]int64{}
+	}
+	c.Knobs["base"] = int64(base)
+	c.Knobs["preempt_permille"] = int64(r.PickInt([]int{2, 10, 40, 120}))
+	for i := 0; i+1 < len(c.Steps); i++ {
+		switch c.Steps[i].K {
+		case "settle", "sleep", "stopnode", "partition", "heal":
+			continue
+		}
+		switch c.Steps[i+1].K {
+		case "settle", "sleep", "stopnode", "partition", "heal":
+			continue
+		}
+		if r.Bool(0.3) {
+			c.Steps[i].W = true
+			c.Steps[i+1].At = 0
+		}
+	}
+	return c
+}
+
+func runC20E1(t *testing.T, c *Case) *Outcome {
+	o := runE1(t, c, profileHooks{})
+	o.Nontrivial = len(c.Steps) >= 4
+	return o
+}
+
 func genLockstep(objs []int) func(r *Rand, tier, profile string) *Case {
 	return func(r *Rand, tier, profile string) *Case {
 		c := &Case{Profile: "lockstep", Knobs: map[string]int64{}}
@@ -1497,6 +1549,10 @@ func init() {
 	register(&Check{ID: "C20", Level: "exploration", Build: "lockstep", Gen: genLockstep(all), Run: runLockstep, QuickS: 40, ThoroughS: 600,
 		Rule: "a case = 2-4 tasks with 1-6 operations each on one shared object (session registry, identifier pool, retained trie, subscription trie, per-session filter list, in-flight table, its timeout list, replicated state) plus the PRNG schedule taken at every statement-level yield; non-trivial when >=2 tasks and >=2 operations; distinct by hash of (operations, schedule)",
 		Real: real, Stub: stub, Assume: assume})
+	register(&Check{ID: "C20", Variant: "e1", Statistical: true, Level: "exploration", Build: "lockstep", Gen: genC20E1, Run: runC20E1, QuickS: 30, ThoroughS: 480,
+		Rule: "whole-broker variant: the simulated scenarios of C01, C03, C07, C11 and C12 (1-3 brokers, clients, gossip, RPC, fake clock) executed on the statement-instrumented build under seeded preemption (runtime.Gosched at PRNG-chosen statements, one P) with the race detector on, neighbouring client requests handed to the brokers in the same driver turn; violations are race reports whose two accesses are both in wasp code, panics, and hangs (no goroutine running, one waiting for a lock)",
+		Real: e1Real, Stub: append([]string{"goroutine scheduling inside the broker: Go runtime with one P plus PRNG-chosen runtime.Gosched() at instrumented statements"}, e1Stub...),
+		Assume: []string{"race reports whose innermost frames are in a dependency (vx-labs/commitlog cursor vs writer) are counted by a probe and not reported: they are outside this repository"}})
 	register(&Check{ID: "C04", Level: "exploration", Build: "lockstep", Gen: genLockstep([]int{5, 5, 10}), Run: runLockstep, QuickS: 15, ThoroughS: 200,
 		Rule: "concurrent variant: 2-4 tasks registering, acknowledging and sweeping on one ack.Queue, or inserting, deleting, moving and sweeping on one expiration.List, under PRNG statement-level schedules, race detector on; exactly-once resolution per registered entry",
 		Real: real, Stub: stub, Assume: assume})
